@@ -57,7 +57,7 @@ def uncond(chk, rule, what, cfg, b, allow_assert=None):
 def fresh_vector(chk, rule, what, p, b, pieces):
     """self.bv is replaced by a fresh vector filled with `pieces` in order"""
     st = [(lv, v) for lv, v in p.raw.stores]
-    Np = nf.Norm(env=getattr(p.raw, "env", None))
+    Np = an.norm_of(p)
     stores = [(Np(lv), v) for lv, v in st]
     tgt = [v for lv, v in stores if lv == SELF_BITS]
     if len(tgt) != 1 or len(stores) != 1:
@@ -204,7 +204,7 @@ def run(ctx, chk):
             p, _, _ = uncond(chk, "S-extend", "FromIterator<A> for Seq", cfg, b)
             if p:
                 base, ids = an.peel_posts(p.raw.ret)
-                Np = nf.Norm(env=p.raw.env)
+                Np = an.norm_of(p)
                 nb = Np(base)
                 evs = [x for x in p.calls if x[3].idx in ids]
                 ok = nb[0] == "call" and nb[1] == "seq::Seq::<A>::with_capacity" and len(evs) == 1 and \
